@@ -7,6 +7,8 @@ Part C of the session-machine invariants: the flow of messages (C04).
   recvd  =  gone ++ vres ++ queue    every message put on the queue is, in order: gone for good, held for a pending
                                      receive, or still queued — nothing skipped, duplicated, reordered or invented
   delivered(trace) = taken           the observable deliveries are exactly the `gone` entries marked delivered
+  lost = []                          no `gone` entry is marked dropped (since the repair of C04-late-cancel-loses-message:
+                                     a late cancel puts the held message back in front of the queue)
 -/
 namespace NasdaqModel.Sess
 
@@ -29,6 +31,7 @@ structure InvG (s : St) : Prop where
   recvd : s.recvd = msgsOf s.consumed
   flow : s.gone.map (·.1) ++ s.vres.toList ++ s.queue = s.recvd
   deliv : delivered s.trace = s.taken
+  lost : s.lost = []
 
 /-- the part of the state `InvG` reads -/
 def gcore (s : St) : List Frame × List Frame × List Frame × List Nat × List Nat × Option Nat × List (Nat × Bool) × List Nat :=
@@ -38,7 +41,7 @@ theorem InvG.of_gcore {s s' : St} (h : gcore s' = gcore s) (i : InvG s) : InvG s
   simp only [gcore, Prod.mk.injEq] at h
   obtain ⟨h1, h2, h3, h4, h5, h6, h7, h8⟩ := h
   exact ⟨by rw [h3, h1, h2]; exact i.wire, by rw [h4, h3]; exact i.recvd, by rw [h7, h6, h5, h4]; exact i.flow,
-    by rw [h8]; unfold St.taken; rw [h7]; exact i.deliv⟩
+    by rw [h8]; unfold St.taken; rw [h7]; exact i.deliv, by unfold St.lost; rw [h7]; exact i.lost⟩
 
 /-! ### frame lemmas -/
 
@@ -163,11 +166,19 @@ theorem taken_append_false (g : List (Nat × Bool)) (l : List Nat) :
     ((g ++ l.map (fun n => (n, false))).filter (·.2)).map (·.1) = (g.filter (·.2)).map (·.1) := by
   simp [List.filter_append]
 
+theorem lost_append_true (g : List (Nat × Bool)) (n : Nat) :
+    ((g ++ [(n, true)]).filter (fun p => !p.2)).map (·.1) = (g.filter (fun p => !p.2)).map (·.1) := by
+  simp [List.filter_append]
+
+theorem St.lost_gone_append_true {s : St} (h : s.lost = []) (n : Nat) :
+    ((s.gone ++ [(n, true)]).filter (fun p => !p.2)).map (·.1) = [] := by
+  rw [lost_append_true]; exact h
+
 /-- a message leaves the queue / the pending slot and is handed to a consumer, observably -/
 theorem InvG.deliver_from_queue {s : St} (i : InvG s) {n : Nat} {q : List Nat} {o : Obs}
     (hq : s.queue = n :: q) (hv : s.vres = none) (ho : deliveredObs o = some n) :
     InvG (({ s with queue := q, gone := s.gone ++ [(n, true)] } : St).emit o) := by
-  refine ⟨i.wire, i.recvd, ?_, ?_⟩
+  refine ⟨i.wire, i.recvd, ?_, ?_, St.lost_gone_append_true i.lost n⟩
   · have := i.flow
     rw [hq, hv] at this
     show (s.gone ++ [(n, true)]).map (·.1) ++ s.vres.toList ++ q = s.recvd
@@ -196,26 +207,26 @@ theorem stepReader_InvG {cfg : Cfg} {s : St} (i : InvG s) : InvG (stepReader cfg
         unfold St.put
         apply InvG.of_gcore (gcore_wakeGetter _ _)
         apply InvG.of_gcore (gcore_wakeGetter _ _)
-        refine ⟨hw, ?_, ?_, i.deliv⟩
+        refine ⟨hw, ?_, ?_, i.deliv, i.lost⟩
         · show s.recvd ++ [n] = msgsOf (s.consumed ++ [.msg n])
           rw [msgsOf_append, i.recvd]; rfl
         · show s.gone.map (·.1) ++ s.vres.toList ++ (s.queue ++ [n]) = s.recvd ++ [n]
           rw [← i.flow]; simp
       | hb =>
         simp only
-        refine ⟨hw, ?_, i.flow, i.deliv⟩
+        refine ⟨hw, ?_, i.flow, i.deliv, i.lost⟩
         show s.recvd = msgsOf (s.consumed ++ [.hb])
         rw [msgsOf_append, i.recvd]; simp [msgsOf]
       | logout =>
         simp only
         refine InvG.of_gcore (gcore_enterClose _ _ _ _) ?_
-        refine ⟨hw, ?_, i.flow, i.deliv⟩
+        refine ⟨hw, ?_, i.flow, i.deliv, i.lost⟩
         show s.recvd = msgsOf (s.consumed ++ [.logout])
         rw [msgsOf_append, i.recvd]; simp [msgsOf]
       | bad =>
         simp only
         refine InvG.of_gcore (gcore_enterClose _ _ _ _) ?_
-        refine ⟨hw, ?_, i.flow, i.deliv⟩
+        refine ⟨hw, ?_, i.flow, i.deliv, i.lost⟩
         show s.recvd = msgsOf (s.consumed ++ [.bad])
         rw [msgsOf_append, i.recvd]; simp [msgsOf]
 
@@ -265,7 +276,7 @@ theorem loginResume_InvG {cfg : Cfg} {s : St} (i : InvG s) (t : Tid) (u : Nat) :
   split
   · rename_i n hv
     have i1 : InvG (({ s with vres := none, rcvBusy := false, gone := s.gone ++ [(n, true)] } : St).emit (.loginReply n)) := by
-      refine ⟨i.wire, i.recvd, ?_, ?_⟩
+      refine ⟨i.wire, i.recvd, ?_, ?_, St.lost_gone_append_true i.lost n⟩
       · have := i.flow
         rw [hv] at this
         show (s.gone ++ [(n, true)]).map (·.1) ++ [] ++ s.queue = s.recvd
@@ -285,23 +296,18 @@ theorem loginResume_InvG {cfg : Cfg} {s : St} (i : InvG s) (t : Tid) (u : Nat) :
         (InvG.emit rfl (InvG.of_gcore (s := s) rfl i))
     · exact InvG.of_gcore (gcore_enterClose _ _ _ _) (InvG.of_gcore (s := s) rfl i)
 
-/-- a late cancel drops the held message: it leaves the flow as `(n, false)` -/
-theorem InvG.drop_held {s : St} (i : InvG s) :
-    InvG { s with vres := none, rcvBusy := false, gone := s.gone ++ s.vres.toList.map (fun n => (n, false)) } := by
-  refine ⟨i.wire, i.recvd, ?_, ?_⟩
-  · have := i.flow
-    show (s.gone ++ s.vres.toList.map (fun n => (n, false))).map (·.1) ++ [] ++ s.queue = s.recvd
-    rw [← this]
-    simp [List.map_map, Function.comp_def]
-  · show delivered s.trace = _
-    rw [i.deliv]
-    unfold St.taken
-    show _ = ((s.gone ++ s.vres.toList.map (fun n => (n, false))).filter (·.2)).map (·.1)
-    rw [taken_append_false]
+/-- a late cancel puts the held message back in front of the queue: the flow is untouched, nothing is dropped -/
+theorem InvG.unhold {s : St} (i : InvG s) :
+    InvG { s with vres := none, rcvBusy := false, queue := s.vres.toList ++ s.queue } := by
+  refine ⟨i.wire, i.recvd, ?_, i.deliv, i.lost⟩
+  have := i.flow
+  show s.gone.map (·.1) ++ [] ++ (s.vres.toList ++ s.queue) = s.recvd
+  rw [← this]
+  simp
 
-theorem InvG.drop_held_emit {s : St} (i : InvG s) (o : Obs) (h : deliveredObs o = none) :
-    InvG (({ s with vres := none, rcvBusy := false, gone := s.gone ++ s.vres.toList.map (fun n => (n, false)) } : St).emit o) :=
-  InvG.emit h i.drop_held
+theorem InvG.unhold_emit {s : St} (i : InvG s) (o : Obs) (h : deliveredObs o = none) :
+    InvG (({ s with vres := none, rcvBusy := false, queue := s.vres.toList ++ s.queue } : St).emit o) :=
+  InvG.emit h i.unhold
 
 theorem InvG.noBusy_emit {s : St} (i : InvG s) (o : Obs) (h : deliveredObs o = none) :
     InvG (({ s with rcvBusy := false } : St).emit o) :=
@@ -312,9 +318,9 @@ macro "ig_ret" i:ident : tactic => `(tactic| first
   | (refine InvG.of_gcore ?_ (InvG.noBusy_emit $i (.ret ?u .eoq) rfl); rfl)
   | (refine InvG.of_gcore ?_ (InvG.noBusy_emit $i (.ret ?u .cancelled) rfl); rfl)
   | (refine InvG.of_gcore ?_ (InvG.noBusy_emit $i (.ret ?u .refused) rfl); rfl)
-  | (refine InvG.of_gcore ?_ (InvG.drop_held_emit $i (.ret ?u .cancelled) rfl); rfl)
-  | (refine InvG.of_gcore ?_ (InvG.drop_held_emit $i (.ret ?u .eoq) rfl); rfl)
-  | (refine InvG.of_gcore ?_ (InvG.drop_held_emit $i (.ret ?u .refused) rfl); rfl))
+  | (refine InvG.of_gcore ?_ (InvG.unhold_emit $i (.ret ?u .cancelled) rfl); rfl)
+  | (refine InvG.of_gcore ?_ (InvG.unhold_emit $i (.ret ?u .eoq) rfl); rfl)
+  | (refine InvG.of_gcore ?_ (InvG.unhold_emit $i (.ret ?u .refused) rfl); rfl))
 
 theorem stepRun_InvG {cfg : Cfg} {s : St} (i : InvG s) (t : Tid) : InvG (stepRun cfg s t) := by
   unfold stepRun
@@ -332,7 +338,7 @@ theorem stepRun_InvG {cfg : Cfg} {s : St} (i : InvG s) (t : Tid) : InvG (stepRun
     · split
       · ig_ret i0
       · refine InvG.of_gcore (gcore_enterClose _ _ _ _) ?_
-        refine InvG.of_gcore ?_ i0.drop_held; rfl
+        refine InvG.of_gcore ?_ i0.unhold; rfl
     · exact InvG.of_gcore (gcore_stepInClose _ _ _ _) i0
     · ig i0
   · -- ready
@@ -363,7 +369,7 @@ theorem stepRun_InvG {cfg : Cfg} {s : St} (i : InvG s) (t : Tid) : InvG (stepRun
         · rename_i hv
           have hv' : s0.vres = none := by simpa using hv
           refine InvG.of_gcore (s := { s0 with queue := q, vres := some n }) rfl ?_
-          refine ⟨i0.wire, i0.recvd, ?_, i0.deliv⟩
+          refine ⟨i0.wire, i0.recvd, ?_, i0.deliv, i0.lost⟩
           have := i0.flow
           rw [hq, hv'] at this
           show s0.gone.map (·.1) ++ [n] ++ q = s0.recvd
@@ -371,7 +377,7 @@ theorem stepRun_InvG {cfg : Cfg} {s : St} (i : InvG s) (t : Tid) : InvG (stepRun
     · split
       · rename_i n hv
         refine InvG.of_gcore (s := ({ s0 with vres := none, rcvBusy := false, gone := s0.gone ++ [(n, true)] } : St).emit (.ret _ (.msg n))) rfl ?_
-        refine ⟨i0.wire, i0.recvd, ?_, ?_⟩
+        refine ⟨i0.wire, i0.recvd, ?_, ?_, St.lost_gone_append_true i0.lost n⟩
         · have := i0.flow
           rw [hv] at this
           show (s0.gone ++ [(n, true)]).map (·.1) ++ [] ++ s0.queue = s0.recvd
@@ -401,7 +407,7 @@ theorem startRecv_InvG {s : St} (i : InvG s) (u : Nat) (b : Bool) : InvG (startR
     · split
       · rename_i n q hq
         refine InvG.of_gcore (s := { s with queue := q, vres := some n }) rfl ?_
-        refine ⟨i.wire, i.recvd, ?_, i.deliv⟩
+        refine ⟨i.wire, i.recvd, ?_, i.deliv, i.lost⟩
         have := i.flow
         rw [hq, hv] at this
         show s.gone.map (·.1) ++ [n] ++ q = s.recvd
@@ -422,7 +428,7 @@ theorem step_InvG {cfg : Cfg} {s : St} (i : InvG s) (ev : Ev) : InvG (step cfg s
       · exact InvG.of_gcore (by rw [gcore_startDispatching, gcore_spawn]) i
       · ig i
   | data fs =>
-    refine ⟨?_, i.recvd, i.flow, i.deliv⟩
+    refine ⟨?_, i.recvd, i.flow, i.deliv, i.lost⟩
     show s.consumed ++ (s.buf ++ fs) = s.wire ++ fs
     rw [← i.wire]; simp
   | eof => exact InvG.of_gcore (gcore_initiateClose _) i
@@ -468,7 +474,7 @@ theorem step_InvG {cfg : Cfg} {s : St} (i : InvG s) (ev : Ev) : InvG (step cfg s
   | callSend => exact InvG.of_gcore (s := s.emit (.write .data)) rfl (i.emit rfl)
   | cancel u => exact InvG.of_gcore (gcore_cancelTask _ _) i
 
-theorem InvG.init : InvG {} := ⟨rfl, rfl, rfl, rfl⟩
+theorem InvG.init : InvG {} := ⟨rfl, rfl, rfl, rfl, rfl⟩
 
 /-- **The message-flow invariant holds in every reachable state.** -/
 theorem runEvs_InvG (cfg : Cfg) (evs : List Ev) : InvG (runEvs cfg {} evs) := by
